@@ -77,6 +77,8 @@ def C14(tier, rng):
 
 def C15(tier, rng):
     cs = []
+    # option values reached through the setters (a refused call must not leave a value outside the RFC domain behind)
+    cs += cookie_histories(2)
     for payload in range(0, 65536, sz(tier, 1, 1)):
         cs.append(Case('dec.rr %s' % hx(opt_rr([], cls=payload)), 'payload'))
     for pos in range(4):
@@ -200,9 +202,13 @@ def C17(tier, rng):
                         item = fam.to_bytes(2, 'big') + bytes([pfx, neg | alen]) + w
                         cs.append(Case('dec.rr %s' % hx(apl_rr([item])), 'apl-wire'))
                     scopes = (0, pfx) if alen % 4 else (0, 8, pfx)
+                    if alen in (0, (pfx + 7) // 8, size):
+                        # the scope field has the same domain as the source field, independently of it
+                        scopes = tuple(sorted(set(scopes + (8 * size - 1, 8 * size, 8 * size + 1, 255, max(pfx - 1, 0), min(pfx + 1, 255)))))
                     for scope in scopes:
                         body = fam.to_bytes(2, 'big') + bytes([pfx, scope]) + w
                         cs.append(Case('dec.rr %s' % hx(opt_rr([opt_option(8, body)])), 'ecs-wire'))
+        cs += neighbour_cases(fam, size, tier, rng)
         # emission: every constructible (prefix, address) of the grid
         for a in addrs:
             v = int.from_bytes(a, 'big')
@@ -245,6 +251,15 @@ def C18(tier, rng):
                     else: rrs = [rr_of(ty, earlier, (b'p',))]
                     m = msg_with(rrs + [rr_of(ty, n, owner)], qs=qs)
                     cs.append(enc_case(m, 'c18-%d-%s' % (ty, pos)))
+    # the RDATA name (or a tail of it) already occurs earlier in a form that ENDS IN A POINTER
+    for ty in NEWTYPES:
+        for n in (base, (b'x',) + base, base[1:]):
+            for first in (base[1:], base[2:], base):
+                q = {'name': first, 'qtype': 1, 'qclass': 1}
+                for mid in ({'ty': 2, 'name': (b'q',) + base[2:], 'ttl': 0, 'cls': 1, 'f': [n]}, {'ty': 1, 'name': n, 'ttl': 0, 'cls': 1, 'f': [b'\1\2\3\4']},
+                            {'ty': 15, 'name': (b'y',) + n, 'ttl': 0, 'cls': 1, 'f': [5, (b'z',) + n]}):
+                    cs.append(enc_case(msg_with([mid, rr_of(ty, n, (b'o',))], qs=[q]), 'c18-earlier-compressed'))
+                    cs.append(enc_case(msg_with([mid, rr_of(ty, n, n), rr_of(ty, n, (b'o2',))], qs=[q]), 'c18-earlier-compressed'))
     # the rest of the message must not influence the choice: OPT records (version, DO, extended rcode, options), header
     # bits, opcodes, classes, sections, neighbours of other types
     def opt(ver=0, do=0, ext=0, payload=1232, opts=()):
